@@ -15,6 +15,7 @@ the possible initial states, the compiled problem and the plan-back table are se
 Every failure carries concrete plans, re-validated with the real SequentialPlanValidator / UPSequentialSimulator.
 """
 import contextlib
+import os
 import hashlib
 import json
 import re
@@ -24,7 +25,7 @@ from itertools import product
 from harness.core import gn, gnat, glist, gpair, gopt, gbool, CoqError
 from harness.gen.problems import SerProblem
 from harness.ser import ser_value
-from harness.c30_gen import KGen, SimOracle, lit_parts, independent_models
+from harness.c30_gen import KGen, SimOracle, lit_parts, independent_models, hand_corpus
 
 META = {
     "level": "translation_validation",
@@ -46,6 +47,7 @@ META = {
             "instance. No axioms.",
 }
 
+PREAMBLE = "Local Open Scope N_scope.\n"
 IMPORTS = ["UPV.Core.Expr", "UPV.Core.Eval", "UPV.Core.Interp", "UPV.Planning.Problem", "UPV.Planning.Sem",
            "UPV.Model.Belief", "UPV.Corr.Corr_C30"]
 
@@ -106,21 +108,34 @@ def arg_value(x):
 
 
 class CompactSer(SerProblem):
-    """SerProblem with the short constructors of Corr_C30.v for the shapes the compiled problems consist of"""
+    """SerProblem with the short constructors of Corr_C30.v for the shapes the compiled problems consist of
+    (the generated files open N_scope, so bare numerals are of type N)"""
 
-    def effect(self, e):
+    def cx(self, e):
         from harness.ser import ser_expr
         n = self.names
-        if e.is_assignment() and not e.forall and e.value.is_bool_constant() and e.fluent.type.is_bool_type():
-            return "(ke %s %s %s %s)" % (gn(n.fl(e.fluent.fluent())), glist([ser_expr(x, n) for x in e.fluent.args]),
-                                         gbool(e.value.bool_constant_value()), ser_expr(e.condition, n))
+        if e.is_fluent_exp() and all(a.is_object_exp() for a in e.args):
+            return "(fl %d [%s])" % (n.fl(e.fluent()), "; ".join(str(n.obj(a.object())) for a in e.args))
+        if e.is_not() and e.arg(0).is_fluent_exp() and all(a.is_object_exp() for a in e.arg(0).args):
+            x = e.arg(0)
+            return "(nfl %d [%s])" % (n.fl(x.fluent()), "; ".join(str(n.obj(a.object())) for a in x.args))
+        if e.is_and():
+            return "(EAnd %s)" % glist([self.cx(a) for a in e.args])
+        if e.is_true():
+            return "tt"
+        return ser_expr(e, n)
+
+    def effect(self, e):
+        n = self.names
+        if (e.is_assignment() and not e.forall and e.value.is_bool_constant() and e.fluent.type.is_bool_type()
+                and all(a.is_object_exp() for a in e.fluent.args)):
+            return "(ko %d [%s] %s %s)" % (n.fl(e.fluent.fluent()), "; ".join(str(n.obj(a.object())) for a in e.fluent.args),
+                                           gbool(e.value.bool_constant_value()), self.cx(e.condition))
         return SerProblem.effect(self, e)
 
     def action(self, a):
-        from harness.ser import ser_expr
         if len(a.parameters) == 0:
-            return "(ka %s %s)" % (glist([ser_expr(c, self.names) for c in a.preconditions]),
-                                   glist([self.effect(e) for e in a.effects]))
+            return "(ka %s %s)" % (glist([self.cx(c) for c in a.preconditions]), glist([self.effect(e) for e in a.effects]))
         return SerProblem.action(self, a)
 
     def render(self):
@@ -129,8 +144,7 @@ class CompactSer(SerProblem):
         objs = glist([gpair(gn(n.ty(t)), glist([gn(n.obj(o)) for o in p.objects(t)])) for t in self.types])
         fls = glist(["(fb %s %s)" % (gn(n.fl(f)), glist([gn(n.ty(pp.type)) for pp in f.signature])) for f in self.fluents])
         acts = glist([gpair(gn(n.act(a)), self.action(a)) for a in self.actions])
-        from harness.ser import ser_expr
-        goals = glist([ser_expr(g, n) for g in p.goals])
+        goals = glist([self.cx(g) for g in p.goals])
         return ("{| p_objs := %s; p_ifun := []; p_fluents := %s;\n p_actions := %s;\n p_goals := %s; p_invs := [] |}"
                 % (objs, fls, acts, goals))
 
@@ -207,7 +221,7 @@ class Instance:
                     gnat(self.n), gnat(self.d), gnat(self.m), gopt(self.red_text)))
 
     def describe(self):
-        return {"problem": str(self.gen.problem), "possible_initial_states": [bits_json(self.gen, b) for b in self.bits],
+        return {"label": getattr(self.gen, "label", "generated"), "problem": str(self.gen.problem), "possible_initial_states": [bits_json(self.gen, b) for b in self.bits],
                 "contingent": self.gen.contingent,
                 "constraints": [(k, [str(x) for x in ls]) for k, ls in getattr(self.gen, "constraints", [])]}
 
@@ -368,8 +382,10 @@ def diagnose_incomplete(inst):
         norc = SimOracle(nproblem, list(prepared.ground_fluent_expressions))
         plan = norc.belief_search(list(nstates), [(a, ()) for a in nproblem.actions], 60)
     tags = []
-    if plan is None:
-        tags.append("normalized-problem-not-conformant-solvable")
+    if plan is None and norc.last_closed:
+        tags.append("normalized-problem-not-conformant-solvable")      # exact: the whole belief space was explored
+    elif plan is None:
+        tags.append("normalized-problem-undecided")
     else:
         tags.append("normalized-problem-conformant-solvable")
     names = [a.name for a in nproblem.actions]
@@ -378,28 +394,46 @@ def diagnose_incomplete(inst):
     backs = [o for o in inst.comp.back if o is not None]
     if len(set((a.name, args) for a, args in backs)) < len(backs):
         tags.append("split-action")
+    if "split-goal" in tags or "split-action" in tags:
+        tags.append("dnf-split")
     return tags
 
 
 # ---------------------------------------------------------------------- the check
 def run(ctx):
     import unified_planning as up
+    import time
+    t_start = time.time()
     ok_proofs = ctx.check_props(extra=["theories/Corr/Corr_C30.v"])
+    t_proofs = time.time()
     rng = ctx.rng
-    nprob = 20 if ctx.quick else 200
+    nprob = int(os.environ.get("C30_NPROB", "0")) or (20 if ctx.quick else 200)
     n = 3 if ctx.quick else 5
     m = 40
     d = 8 if ctx.quick else 12
-    stats = {"generated": 0, "instances": 0, "contingent": 0, "explicit": 0, "rejected": 0, "rejected_msgs": {},
+    stats = {"generated": 0, "hand_written": 0, "instances": 0, "contingent": 0, "explicit": 0, "rejected": 0, "rejected_msgs": {},
              "n_initial_states": {}, "py_conformant_len": {}, "compiled_actions": 0, "merge_or_aux_actions": 0,
              "deliberate_dominated": 0, "reduction_cases": 0, "reduction_dropped": 0, "sound_closed": 0,
              "conformant_exists": 0, "compiled_solvable": 0, "compiled_unsolvable_exact": 0,
              "completeness_undecided": 0, "product_nodes_total": 0, "contingent_enumerations_compared": 0,
-             "ground_fluents": {}}
+             "ground_fluents": {}, "constraint_shapes": {}}
     insts, kcases = [], []
-    for i in range(nprob):
-        contingent = (i % 3 == 2)
-        inst = make_instance(rng, i, contingent, n, m, d, stats)
+    todo = [("hand", g) for g in hand_corpus()] + [("gen", i) for i in range(nprob)]
+    for kind, what in todo:
+        if kind == "hand":
+            gen = what
+            with warnings.catch_warnings():
+                warnings.simplefilter("ignore")
+                orc = SimOracle(gen.plain, gen.gfl)
+                plan = orc.belief_search([gen.state_of(b) for b in gen.bits], gen.ground_instances(), n)
+            inst = Instance(-1, gen, n, m, d)
+            inst.oracle, inst.py_plan_len = orc, (None if plan is None else len(plan))
+            contingent = False
+            stats["hand_written"] += 1
+        else:
+            i = what
+            contingent = (i % 3 == 2)
+            inst = make_instance(rng, i, contingent, n, m, d, stats)
         gen = inst.gen
         try:
             res, rec = run_compiler(gen, inst.bits)
@@ -453,21 +487,57 @@ def run(ctx):
             ngfl = list(prepared.ground_fluent_expressions)
             trues = [[atom[fe] for fe in ngfl if s.get_value(fe).bool_constant_value()] for s in nstates]
             basis = [[id(x) for x in nstates].index(id(s)) for s in kept]
-            kept_bits = [inst.dedup[j] for j in basis]
+            # the normalized states in terms of the original ground fluents (matched by name: the compiler's own order
+            # of the states need not be the harness's)
+            by_name = {str(fe): fe for fe in ngfl}
+            all_bits = [tuple(s.get_value(by_name[str(fe)]).bool_constant_value() for fe in gen.gfl) for s in nstates]
+            if sorted(all_bits) != sorted(inst.dedup):
+                ctx.fail("oracle", "the states handed to the reduction are not the (de-duplicated) possible initial states",
+                         ["c30", "rebuilt-states-differ"], dict(inst.describe(), rebuilt=[bits_json(gen, b) for b in all_bits]), True)
+            kept_bits = [all_bits[j] for j in basis]
+            inst.all_bits = all_bits
             inst.red_text = (
                 "{| r_NP := %s;\n r_states := %s; r_basis := %s; r_targets := %s;\n r_all := %s;\n r_kept := %s;\n"
                 " r_CPfull := %s;\n r_c0full := %s; r_cactsfull := %s |}" % (
                     nptext, glist([glist([gn(a) for a in t]) for t in trues]), glist([gnat(j) for j in basis]),
                     glist([lit(t) for t in prepared.merge_targets]),
-                    glist([inst.ser_bits(b) for b in inst.dedup]), glist([inst.ser_bits(b) for b in kept_bits]),
+                    glist([inst.ser_bits(b) for b in all_bits]), glist([inst.ser_bits(b) for b in kept_bits]),
                     full.render(), full.ser_c0(), full.ser_cacts()))
             inst.basis, inst.full = basis, full
             stats["reduction_cases"] += 1
             stats["reduction_dropped"] += len(basis) < len(nstates)
         insts.append(inst)
         kcases.append(inst.kcase())
-    shard = 5 if ctx.quick else 8
-    codes = ctx.coq_codes(kcases, "code", imports=IMPORTS, shard=shard, timeout=1700, label="kcases") if kcases else []
+    # contingent constraints only (cheap, no Coq): the compiler's enumeration vs. the models of the constraints
+    for _ in range(40 if ctx.quick else 400):
+        gen = KGen(rng, contingent=True)
+        try:
+            _res, rec = run_compiler(gen, gen.bits)
+        except up.exceptions.UPUsageError:
+            continue
+        except Exception as e:  # noqa
+            ctx.fail("impl-exception", "Ks0Compiler.compile raised %s: %s" % (type(e).__name__, str(e)[:200]),
+                     ["c30", "compile-raises", type(e).__name__], {"problem": str(gen.problem), "error": repr(e)}, True)
+            continue
+        stats["contingent_enumerations_compared"] += 1
+        key = "+".join(sorted(k for k, _ in gen.constraints))
+        stats["constraint_shapes"][key] = stats["constraint_shapes"].get(key, 0) + 1
+        _cp, cstates = rec["contingent"][0]
+        theirs = sorted(set(tuple(s.get_value(fe).bool_constant_value() for fe in gen.gfl) for s in cstates))
+        ours = sorted(set(gen.bits))
+        if theirs != ours:
+            ctx.fail("oracle", "possible initial states derived from oneof/or/unknown constraints differ from the models of the constraints",
+                     ["c30", "contingent-enumeration"],
+                     {"problem": str(gen.problem), "constraints": [(k, [str(x) for x in ls]) for k, ls in gen.constraints],
+                      "compiler_states": [bits_json(gen, b) for b in theirs],
+                      "models_of_constraints": [bits_json(gen, b) for b in ours]}, True)
+    t_gen = time.time()
+    shard = 6 if ctx.quick else 8
+    codes = ctx.coq_codes(kcases, "code", imports=IMPORTS, preamble=PREAMBLE, shard=shard, timeout=1700,
+                          label="kcases") if kcases else []
+    t_coq = time.time()
+    stats["seconds"] = {"proofs": round(t_proofs - t_start, 1), "generation_and_compilation": round(t_gen - t_proofs, 1),
+                        "coq_checkers": round(t_coq - t_gen, 1)}
     kcodes = [c % (1 << 40) for c in codes]
     rcodes = [c >> 40 for c in codes]
     nontrivial = set()
@@ -486,7 +556,7 @@ def run(ctx):
             samples.append(dict(inst.describe(), code_flags=flags, product_nodes=nodes,
                                 compiled_actions=[a.name for a in inst.comp.cacts]))
         kind_tag = "contingent" if inst.gen.contingent else "explicit-states"
-        pre = "Definition c : kcase := %s.\n" % case
+        pre = PREAMBLE + "Definition c : kcase := %s.\n" % case
         if flags & 4:
             ctx.fail("corr", "case outside the checker's model (a key outside the declared ground fluents)",
                      ["c30", "outside-model"], inst.describe(), False)
@@ -508,7 +578,7 @@ def run(ctx):
     for inst, case, code in zip(insts, kcases, rcodes):
         basis, full = inst.basis, inst.full
         if code & 3:
-            pre = "Definition c : kcase := %s.\n" % case
+            pre = PREAMBLE + "Definition c : kcase := %s.\n" % case
             w = ctx.coq_show("match k_red c with Some r => Some (model_basis r, merge_targets (r_NP r)) | None => None end",
                              imports=IMPORTS, preamble=pre)
             ctx.fail("corr", "model of _reduce_possible_initial_states_to_basis / merge targets differs from the implementation (corr:C30:basis_indices)",
@@ -516,11 +586,11 @@ def run(ctx):
         if code & 4:
             ctx.fail("oracle", "dropping the states the reduction calls dominated changes the belief-space answer (conformant plan within the bound)",
                      ["c30", "reduction", "belief-answer-changes"],
-                     dict(inst.describe(), kept=[bits_json(inst.gen, inst.dedup[j]) for j in basis]), True)
+                     dict(inst.describe(), kept=[bits_json(inst.gen, inst.all_bits[j]) for j in basis]), True)
         if code & 8:
             ctx.fail("oracle", "the compiled problem's solvability differs with and without the dominated-state reduction",
                      ["c30", "reduction", "classical-answer-changes"],
-                     dict(inst.describe(), kept=[bits_json(inst.gen, inst.dedup[j]) for j in basis],
+                     dict(inst.describe(), kept=[bits_json(inst.gen, inst.all_bits[j]) for j in basis],
                           compiled_actions_without_reduction=[a.name for a in full.cacts]), True)
     if not ok_proofs:
         ctx.proof_broken()
@@ -545,4 +615,4 @@ def parse_ids(text):
     if "Some" not in text:
         return None
     seg = text.split("=", 1)[1].rsplit(":", 1)[0]
-    return [int(x) for x in re.findall(r"(\d+)%N", seg)]
+    return [int(x) for x in re.findall(r"\d+", seg.replace("%N", ""))]
